@@ -20,7 +20,7 @@ from .. import c15gen as G
 from .. import hast as H
 from ..common import Check, lean_gate, ROOT, REPO, rng, model_batch_parallel, model_batch
 from ..findings import attribute
-from ..attrib_c15 import moments_agree, needed_reruns, rerun_task
+from ..attrib_c15 import moments_agree, needed_reruns, rerun_task, choice_literal_sums
 from ..pool import run_tasks
 from ..theorems import THEOREMS as _T
 
@@ -308,6 +308,12 @@ def judge_query(case, q, code, model):
                    "gen_num": model.get("gen_num"), "gen_den": model.get("gen_den"), "gen_count": model["gen_count"]}
     if not code.get("ran"):
         rec["status"] = "undefined" if pev == 0 else "refused"
+        if not exact and "add up to more than 1" in str((code.get("error") or {}).get("message", "")) and \
+                any(ex > 1 for _, ex, _ in choice_literal_sums(code.get("code"))):
+            # a row within the tolerance whose first d-1 entries already exceed 1: the generated choice has a
+            # negative remaining probability, Polar refuses it; nothing to compare
+            rec["status"] = "undefined"
+            rec["undefined_reason"] = "rows-within-tolerance:first-values-exceed-1"
         return rec
     # per-iteration moments: code vs model of the generated program
     ok = moments_agree(q["kind"], q.get("k"), code.get("moment_values"), rec["spec"], NMAX)
